@@ -694,3 +694,99 @@ impl gmsol_utils::InitSpace for GtExchange {
 impl Seed for GtExchange {
     const SEED: &'static [u8] = b"gt_exchange";
 }
+
+/// Verification-only thin wrappers around the crate-private GT functions (no logic).
+/// Compiled only with `--cfg gmsol_verif`.
+#[cfg(gmsol_verif)]
+pub mod verif_hooks_g6 {
+    use super::*;
+
+    /// Calls `GtState::init`.
+    pub fn init(
+        gt: &mut GtState,
+        decimals: u8,
+        initial_minting_cost: u128,
+        grow_factor: u128,
+        grow_step: u64,
+        ranks: &[u64],
+    ) -> Result<()> {
+        gt.init(decimals, initial_minting_cost, grow_factor, grow_step, ranks)
+    }
+
+    /// Calls `GtState::mint_to`.
+    pub fn mint_to(gt: &mut GtState, user: &mut UserHeader, amount: u64) -> Result<()> {
+        gt.mint_to(user, amount)
+    }
+
+    /// Calls `GtState::unchecked_burn_from`.
+    pub fn burn_from(gt: &mut GtState, user: &mut UserHeader, amount: u64) -> Result<()> {
+        gt.unchecked_burn_from(user, amount)
+    }
+
+    /// Calls `GtState::next_minting_cost`.
+    pub fn next_minting_cost(gt: &GtState, next_minted: u64) -> Result<Option<(u64, u128)>> {
+        gt.next_minting_cost(next_minted)
+    }
+
+    /// Calls `GtState::unchecked_update_rank`.
+    pub fn update_rank(gt: &GtState, user: &mut UserHeader) {
+        gt.unchecked_update_rank(user)
+    }
+
+    /// Calls `GtState::get_mint_amount`.
+    pub fn get_mint_amount(gt: &GtState, size_in_value: u128) -> Result<(u64, u128, u128)> {
+        gt.get_mint_amount(size_in_value)
+    }
+
+    /// Calls `GtState::ranks`.
+    pub fn ranks(gt: &GtState) -> &[u64] {
+        gt.ranks()
+    }
+
+    /// Reads `GtState::last_minted_at`.
+    pub fn last_minted_at(gt: &GtState) -> i64 {
+        gt.last_minted_at
+    }
+
+    /// Calls `GtState::cumulative_inv_cost_factor`.
+    pub fn cumulative_inv_cost_factor(gt: &GtState) -> u128 {
+        gt.cumulative_inv_cost_factor()
+    }
+
+    /// Calls `GtState::unchecked_request_exchange`.
+    pub fn request_exchange(
+        gt: &mut GtState,
+        user: &mut UserHeader,
+        vault: &mut GtExchangeVault,
+        exchange: &mut GtExchange,
+        amount: u64,
+    ) -> Result<()> {
+        gt.unchecked_request_exchange(user, vault, exchange, amount)
+    }
+
+    /// Calls `GtState::unchecked_confirm_exchange_vault`.
+    pub fn confirm_exchange_vault(gt: &mut GtState, vault: &mut GtExchangeVault) -> Result<u64> {
+        gt.unchecked_confirm_exchange_vault(vault)
+    }
+
+    /// Calls `GtExchangeVault::init`.
+    pub fn vault_init(
+        vault: &mut GtExchangeVault,
+        bump: u8,
+        store: &Pubkey,
+        time_window: u32,
+    ) -> Result<()> {
+        vault.init(bump, store, time_window)
+    }
+
+    /// Calls `GtExchange::init`.
+    pub fn exchange_init(
+        exchange: &mut GtExchange,
+        bump: u8,
+        owner: &Pubkey,
+        store: &Pubkey,
+        vault: &Pubkey,
+    ) -> Result<()> {
+        exchange.init(bump, owner, store, vault)
+    }
+}
